@@ -35,7 +35,8 @@ PROPS = {
                           sat("helpers", "helpers", 600, 8000, ["tests"], shard=300)]),   # a struct test lost by a derived schema is a skipped constraint
     "C02": dict(theorems=["C02_engine_computes_semantics", "C02_node_refines", "C02_all_failing_tests_reported", "C02_test_issues_at_own_path", "C02_missing_required_is_one_issue", "C02_coerce_failure_is_one_issue", "C02_struct_not_a_record", "C02_nil_iff_no_violation"], cone=ENGINE_CONE + ["Proofs/ExactP.v", "Proofs/AbsentP.v"], rule=ENGINE_RULE,
                 families=[eng("engine", "C02", 1200, 20000, ["nil", "issues", "panic"]),
-                          dict(name="fe", family="fe", profile="fe", quick=700, thorough=10000, tags=["nil", "issues", "panic"])]),   # the same through the front ends (lists with blank entries, repeated parameters)
+                          dict(name="fe", family="fe", profile="fe", quick=700, thorough=10000, tags=["nil", "issues", "panic"]),   # the same through the front ends (lists with blank entries, repeated parameters)
+                          sat("helpers", "helpers", 600, 8000, ["tests"], shard=300)]),   # every failing struct test of a derived schema is reported, and none that belongs to another schema
     "C03": dict(theorems=["C03_engine_computes_semantics", "C03_leaf_is_coercion", "C03_documented_coercions", "C03_unnamed_fields_untouched", "C03_slice_keeps_length_and_order", "C03_pointer_allocates", "C03_absent_pointer_stays_nil"], cone=ENGINE_CONE + ["Model/Coerce.v", "Proofs/ExactP.v"], rule=ENGINE_RULE,
                 families=[eng("engine", "C03", 1200, 20000, ["dest", "panic"]),
                           eng("catching", "C05", 600, 10000, ["dest", "panic"])]),   # destinations next to nodes that catch: a leaf holds the coercion of its own input),
